@@ -181,7 +181,15 @@ def SnapOK (s : Store) (j : Nat) : Prop :=
 /-- A cache is exact, or its position is strictly behind HEAD (so it can neither be reused by the
     `head == at` shortcut nor commit: entry pos+1 exists). -/
 def CacheOK (s : Store) (j : Nat) (jc : JCache) : Prop :=
-  tableAt s j jc.pos = some jc.table ∨ jc.pos < headOf s j
+  tableAt s j jc.pos = some jc.table ∨
+    (jc.pos < headOf s j ∧ ∃ m, m ≤ headOf s j ∧ tableAt s j m = some jc.table)
+
+/-- Every cached table is the table of some position at or below HEAD. -/
+theorem CacheOK.hist {s j jc} (h : CacheOK s j jc) (hp : jc.pos ≤ headOf s j) :
+    ∃ m, m ≤ headOf s j ∧ tableAt s j m = some jc.table := by
+  rcases h with h | h
+  · exact ⟨jc.pos, hp, h⟩
+  · exact h.2
 
 def PcOK (s : Store) (j : Nat) (jc : JCache) (k : JKind) : JPc → Prop
   | .rdHead => True
@@ -212,11 +220,12 @@ structure Ext (s s' : Store) (j e : Nat) : Prop where
 theorem Ext.tableAt {s s' j e} (x : Ext s s' j e) (n : Nat) (hn : n ≤ e) : tableAt s' j n = tableAt s j n :=
   tableAt_congr s s' j n (fun m h1 h2 => x.ents m h1 (by omega))
 
-theorem Ext.cacheOK {s s' j e} (x : Ext s s' j e) (jc : JCache) (hp : jc.pos ≤ e) (h : CacheOK s j jc) :
-    CacheOK s' j jc := by
-  rcases h with h | h
+theorem Ext.cacheOK {s s' j e} (x : Ext s s' j e) (jc : JCache) (hp : jc.pos ≤ e) (he : headOf s j ≤ e)
+    (h : CacheOK s j jc) : CacheOK s' j jc := by
+  rcases h with h | ⟨h, m, hm, ht⟩
   · left; rw [x.tableAt _ hp]; exact h
-  · right; have := x.head; omega
+  · right; have := x.head
+    exact ⟨by omega, m, by omega, by rw [x.tableAt m (by omega)]; exact ht⟩
 
 theorem Ext.wf {s s' j e} (x : Ext s s' j e) (h : WF s j e) : WF s' j e := by
   intro n hn
@@ -304,7 +313,7 @@ theorem afterLoad_post {s j e jc k pc} (p : JPre s j e jc k pc) (c' : JCache) (e
       refine ⟨rfl, op, a, rfl, ?_⟩
       rcases hc with hc | hc
       · exact Or.inl ⟨hc, hchk⟩
-      · exact Or.inr hc
+      · exact Or.inr hc.1
 
 
 
@@ -323,7 +332,7 @@ theorem jstep_tables_rdHead {s j e jc k} (p : JPre s j e jc k .rdHead) :
       apply afterLoad_post p jc _
       rcases p.cache with hc | hc
       · exact Or.inl hc
-      · omega
+      · have := hc.1; omega
     · split
       · exact JPost.same p _ rfl p.cache (by intro _ _ _ _ _ h; cases h)
       · refine JPost.same p _ rfl (by simpa using p.cache) ?_
@@ -363,7 +372,7 @@ theorem jstep_tables_rdSnap {s j e jc k h} (p : JPre s j e jc k (.rdSnap h)) :
       exact this.symm
     · rename_i hah
       apply afterLoad_post p ⟨h, t⟩ _
-      right; show h < headOf s j; omega
+      right; exact ⟨by show h < headOf s j; omega, a, haH, hta⟩
   · refine JPost.same p _ rfl (by simpa using p.cache) ?_
     intro st jc' k' pc' ev hc; cases hc; exact h1
   · exact JPost.same p _ rfl p.cache (by intro _ _ _ _ _ h; cases h)
@@ -423,7 +432,7 @@ theorem jstep_tables_putSnap {s j e jc k h t} (p : JPre s j e jc k (.putSnap h t
   have hext : Ext s (s.put (.snap j) (.jsnap h t)) j e :=
     ⟨fun m _ _ => Store.put_other _ _ _ _ (by simp), by rw [headOf_put_other _ _ _ _ (by simp)]; exact Nat.le_refl _⟩
   have hH : headOf (s.put (.snap j) (.jsnap h t)) j = headOf s j := headOf_put_other _ _ _ _ (by simp)
-  have hcache : CacheOK (s.put (.snap j) (.jsnap h t)) j jc := hext.cacheOK jc (by have := p.cpos; have := p.he; omega) p.cache
+  have hcache : CacheOK (s.put (.snap j) (.jsnap h t)) j jc := hext.cacheOK jc (by have := p.cpos; have := p.he; omega) p.he p.cache
   refine ⟨⟨e, ?_, by simpa using hext.wf p.wf, Nat.le_refl _⟩, by simpa using hext, ?_, ?_, by simpa using hcache, ?_⟩
   · intro m; simp only [afterLoad_store]; rw [Store.put_other _ _ _ _ (by simp)]; exact p.range m
   · simp only [afterLoad_store]; rw [Store.put_other _ _ _ _ (by simp)]; exact p.tail
@@ -444,7 +453,7 @@ theorem jstep_tables_putSnap {s j e jc k h t} (p : JPre s j e jc k (.putSnap h t
         refine ⟨rfl, op, a, rfl, ?_⟩
         rcases hcache with hc | hc
         · exact Or.inl ⟨hc, hchk⟩
-        · exact Or.inr hc
+        · exact Or.inr hc.1
 
 
 
@@ -496,7 +505,7 @@ theorem jstep_tables_putx {s j e jc k pos} (p : JPre s j e jc k (.putx pos)) :
       rw [Store.put_other _ _ _ _ (by simp)] at hv
       obtain ⟨a', t', hv', h1, h2, h3⟩ := p.snap v hv
       exact ⟨a', t', hv', h1, by rw [hH]; exact h2, by rw [hext.tableAt a' (by omega)]; exact h3⟩
-    · simpa using hext.cacheOK jc (by have := p.cpos; omega) p.cache
+    · simpa using hext.cacheOK jc (by have := p.cpos; omega) p.he p.cache
     · intro st jc' k' pc' ev hc; cases hc
       exact ⟨op, a, rfl, by simp⟩
 
@@ -516,8 +525,10 @@ theorem jstep_tables_putHead {s j e jc k n} (p : JPre s j e jc k (.putHead n)) :
     obtain ⟨a', t', hv', h1, h2, h3⟩ := p.snap v hv
     exact ⟨a', t', hv', h1, by rw [hH]; omega, by rw [hext.tableAt a' (by omega)]; exact h3⟩
   · simp only [JOut.store_done, JOut.cache_done]
-    right; show 0 < headOf (s.put (.head j) (.num n)) j
-    rw [hH]; omega
+    obtain ⟨m, hm, htm⟩ := p.cache.hist p.cpos
+    right
+    refine ⟨by show 0 < headOf (s.put (.head j) (.num n)) j; rw [hH]; omega, m, by rw [hH]; omega, ?_⟩
+    rw [hext.tableAt m (by have := p.he; omega)]; exact htm
   · intro st jc' k' pc' ev hc; cases hc
 
 theorem jstep_tables {s j e jc k pc} (p : JPre s j e jc k pc) : JPost s j e (jstep s j jc k pc) := by
@@ -602,8 +613,8 @@ theorem inv2_exec {j : Nat} {s : Sys} {e e' : Nat} (l : Label) (h1 : Inv1 j s e)
       · intro c' slot
         have hpos : ((s.cl c').cache j slot).pos ≤ e := by have := h1.cache c' slot; have := h1.he; omega
         by_cases hcc : c' = c
-        · subst hcc; rw [hcache]; exact hext.cacheOK _ hpos (h2.cache _ _)
-        · rw [hoth c' hcc]; exact hext.cacheOK _ hpos (h2.cache _ _)
+        · subst hcc; rw [hcache]; exact hext.cacheOK _ hpos h1.he (h2.cache _ _)
+        · rw [hoth c' hcc]; exact hext.cacheOK _ hpos h1.he (h2.cache _ _)
       · intro c' slot k pc hon hk
         by_cases hcc : c' = c
         · subst hcc
@@ -633,9 +644,9 @@ theorem inv2_exec {j : Nat} {s : Sys} {e e' : Nat} (l : Label) (h1 : Inv1 j s e)
           rw [hcache]
           split
           · rw [hst]; exact post.cache
-          · exact hext.cacheOK _ (by have := h1.cache c' sl; have := h1.he; omega) (h2.cache _ _)
+          · exact hext.cacheOK _ (by have := h1.cache c' sl; have := h1.he; omega) h1.he (h2.cache _ _)
         · rw [hoth c' hcc]
-          exact hext.cacheOK _ (by have := h1.cache c' sl; have := h1.he; omega) (h2.cache _ _)
+          exact hext.cacheOK _ (by have := h1.cache c' sl; have := h1.he; omega) h1.he (h2.cache _ _)
       · intro c' sl k' pc' hon hk
         by_cases hcc : c' = c
         · subst hcc
